@@ -591,7 +591,6 @@ func (f *FnEnc) callModComps(c *ssa.CallCommon, comps map[string]bool, cells map
 			if st, ok := c.Args[0].Type().Underlying().(*types.Slice); ok && !isByte(st.Elem()) {
 				ac := f.e.reg.arrComp(st.Elem())
 				comps[ac] = true
-				delete(f.lastFreshMods, ac)
 				f.lastFullMods[ac] = true
 				comps["W"] = true
 			}
@@ -619,12 +618,9 @@ func (f *FnEnc) callModComps(c *ssa.CallCommon, comps map[string]bool, cells map
 	}
 	mods, freshOnly := f.e.modSpec(ct.Modifies)
 	for _, n := range mods {
-		if freshOnly[n] && !f.lastFullMods[n] {
-			if !comps[n] {
-				f.lastFreshMods[n] = true
-			}
+		if freshOnly[n] {
+			f.lastFreshMods[n] = true
 		} else {
-			delete(f.lastFreshMods, n)
 			f.lastFullMods[n] = true
 		}
 		comps[n] = true
